@@ -20,7 +20,11 @@ from vlib import Scratch, tlc, tv, Report, log, tier, seed
 TEXT = {1: "alpn=h2", 2: "alpn=h2|h3", 3: "no-default-alpn=", 4: "no-default-alpn=x", 5: "port=0", 6: "port=443", 7: "port=65535", 8: "port=65536",
         9: "port=-1", 10: "port=https", 11: "ipv4hint=1.2.3.4", 12: "ipv4hint=1.2.3.4|255.255.255.255", 13: "ipv4hint=1.2.3", 14: "echconfig=AQID",
         15: "echconfig=!!!", 16: "ipv6hint=2001:db8::1", 17: "ipv6hint=2001:db8::1|::ffff:1.2.3.4", 18: "ipv6hint=1.2.3.4", 19: "mandatory=alpn",
-        20: "mandatory=alpn|port", 21: "mandatory=port|alpn", 22: "mandatory=ipv4hint", 23: "mandatory=mandatory", 24: "mandatory=alpn|alpn", 25: "mandatory=bogus"}
+        20: "mandatory=alpn|port", 21: "mandatory=port|alpn", 22: "mandatory=ipv4hint", 23: "mandatory=mandatory", 24: "mandatory=alpn|alpn", 25: "mandatory=bogus", 26: "mandatory=port|ipv4hint", 27: "mandatory=ipv6hint|echconfig|no-default-alpn", 28: "alpn=h3", 29: "alpn=http/1.1|h2"}
+NC = len(TEXT)
+# which valid candidates provide each key (for the directed lists: a mandatory parameter together with the keys it names)
+BY_KEY = {1: [1, 2, 28, 29], 2: [3], 3: [5, 6, 7], 4: [11, 12], 5: [14], 6: [16, 17]}
+MAND = {19: [1], 20: [1, 3], 21: [3, 1], 22: [4], 26: [3, 4], 27: [6, 5, 2]}
 
 
 def render(ids, rng):
@@ -50,12 +54,18 @@ def run():
     extra = 4000 if not thorough else 30000
     for _ in range(extra):
         n = 3 if not thorough else 4
-        lists.append([rng.randrange(1, 26) for _ in range(n)])
+        lists.append([rng.randrange(1, NC + 1) for _ in range(n)])
+    # directed: every mandatory candidate with the parameters it names present, in every rotation
+    for m, keys in MAND.items():
+        for _ in range(6 if not thorough else 40):
+            l = [m] + [rng.choice(BY_KEY[k]) for k in keys]
+            rng.shuffle(l)
+            lists.append(l)
     rows = [{"ids": l, "text": render(l, rng)} for l in lists]
     os.makedirs(vlib.OUT, exist_ok=True)
     inp, trace = os.path.join(vlib.OUT, "c18-in.ndjson"), os.path.join(vlib.OUT, "c18-trace.ndjson")
     vlib.write_ndjson(inp, rows)
-    vlib.run_vh(["svcb", "-in", inp, "-out", trace], timeout=3000)
+    vlib.run_vh(["svcb", "-in", inp, "-out", trace, "-deferred", "64"], timeout=3000)
     res = tv("SvcbTrace", trace, timeout=3000)
     out = [json.loads(x) for x in open(trace)]
     log("[C18] %d lists through the real codec and miekg/dns, validated in %.0fs, %d rejected" % (len(out), res["wall"], len(res["rejects"])))
@@ -70,7 +80,7 @@ def run():
     st = selftest(out)
     acc = [e for e in out if e["accepted"]]
     rep.cov = {"evaluations": len(out), "distinct_nontrivial": len({json.dumps(e["ids"]) for e in acc if len(e["ids"]) >= 2}),
-               "rule": "every list of <= %d of the 25 candidate parameters in every order (TLC-enumerated) + seeded random longer lists, rendered with optional quotes / "
+               "rule": "every list of <= %d of the 29 candidate parameters in every order (TLC-enumerated) + seeded random longer lists, rendered with optional quotes / "
                        "trailing ';'; non-trivial = distinct accepted lists with at least two parameters" % (3 if thorough else 2),
                "samples": [{k: e[k] for k in ("ids", "text", "accepted", "wire", "retext")} for e in acc[5:8]], "accepted": len(acc), "rejected_lists": len(out) - len(acc),
                "spec_states": g["distinct"], "exhaustive": True, "selftest_corruption_rejected": st}
